@@ -5,7 +5,7 @@ import os
 import common
 
 PROPS = "RotoV.Props.C08"
-EXTRA = ["RotoV.Model.TraceSpec", "RotoV.Lemmas.TraceSpec", "RotoV.Model.LowerS", "RotoV.Lemmas.LowerS",
+EXTRA = ["RotoV.Model.TraceSpec", "RotoV.Lemmas.TraceSpec", "RotoV.Model.LowerS", "RotoV.Lemmas.LowerS", "RotoV.Lemmas.LowerSim",
          "RotoV.Lemmas.Dce", "RotoV.Model.Dce", "RotoV.Props.C01Dce"]
 
 
